@@ -32,6 +32,16 @@ def run(ctx):
     rule_lifting(ctx)
     rule_note_transpose(ctx)
     rule_octave(ctx)
+    # Note.transpose is judged with intervals.from_shorthand summarised by its post-condition (right letter, exactly
+    # +-s semitones); that post-condition and the respelling helper behind it are C03's / C02's rules on the same
+    # code, discharged here as well so that a defect there is reported as the transposition defect it is
+    from . import c02, c03
+    imod = repo.mod("mingus.core.intervals")
+    ctx.touch(imod)
+    c03.rule_from_shorthand(ctx, imod, R="R-C11-F")
+    c02.rule_helper(ctx, imod, R="R-C11-H")
+    ctx.floor("R-C11-F", 7 * 35 * 2)
+    ctx.floor("R-C11-H", 5)
     ctx.floor("R-C11-1", 9)
     ctx.floor("R-C11-2", 6)
     ctx.floor("R-C11-3", 5)
